@@ -267,6 +267,7 @@ esl_msafile_selex_Read(ESL_MSAFILE *afp, ESL_MSA **ret_msa)
     if (b->anchor != -1) esl_buffer_RaiseAnchor(afp->bf, b->anchor);
     selex_block_Destroy(b);
   }
+  if (msa) esl_msa_Destroy(msa);
   *ret_msa = NULL;
   return status;
 }
